@@ -1470,3 +1470,40 @@ M("benign-filters-escaped-regex", "ALL", "", "retries.py",
             else pattern in str(error)""", """            (pattern if isinstance(pattern, re.Pattern) else re.compile(re.escape(pattern))).search(str(error))""", expect="silent")
 M("benign-from-json-dict-rebuilds-nested", "ALL", "", "lambda_service.py",
   "        data_copy = copy.deepcopy(data)", "        data_copy = {k: (dict(v) if isinstance(v, dict) else v) for k, v in data.items()}", expect="silent")
+
+# ----------------------------------------------------------------------------- review-agent round h1: each repaired defect, reverted
+M("c05-stop-leaves-waiters", "C05", "R6.stop-refuses-later-producers", "state.py",
+  "            self._checkpointing_failed.set(stopped_error)\n            for pending in (self._overflow_queue, self._checkpoint_queue):",
+  "            for pending in ():")
+M("c06-success-without-failure-look", "C06", "R5.verdict-consults-failure-state", "execution.py",
+  "                raise_if_checkpointing_failed()\n                return DurableExecutionInvocationOutput.create_succeeded(\n                    result=serialized_result\n                ).to_dict()",
+  "                return DurableExecutionInvocationOutput.create_succeeded(\n                    result=serialized_result\n                ).to_dict()")
+M("c06-look-without-join", "C06", "R5.verdict-consults-failure-state", "execution.py",
+  "                execution_state.stop_checkpointing()\n                checkpoint_future.result()\n                execution_state.raise_if_checkpointing_failed()",
+  "                execution_state.raise_if_checkpointing_failed()")
+M("c10-resumed-op-not-asked", "C10", "R6.resumed-operation-checks-first", "operation/base.py",
+  "            if state is not None and not result.checkpointed_result.is_succeeded():", "            if False:")
+M("c16-orphan-query-on-retraversal", "C16", "R2.replay-children-cell", "operation/base.py",
+  "            if state is not None and not result.checkpointed_result.is_succeeded():", "            if state is not None:")
+M("c10-put-after-the-lock", "C10", "R1.under-lock", "state.py",
+  "                completion_event = self._enqueue_checkpoint(operation_update, is_sync)\n        else:\n            completion_event = self._enqueue_checkpoint(operation_update, is_sync)\n",
+  "        completion_event = self._enqueue_checkpoint(operation_update, is_sync)\n")
+M("c07-callback-under-timer-lock", "C07", "R4.no-callback-under-lock", "concurrency/executor.py",
+  "                            to_resubmit = exe_state\n", "                            to_resubmit = exe_state\n                            self.resubmit_callback(to_resubmit)\n                            to_resubmit = None\n")
+M("c07-invoke-parks-until-now", "C07", "R1.timed-suspension-lies-in-the-future", "operation/invoke.py",
+  "self.config.timeout_seconds or None)", "self.config.timeout_seconds)")
+M("c01-replay-tracking-iterates-unlocked", "C01", "R3.operations-iterated-under-lock", "state.py",
+  "                with self._operations_lock:\n                    recorded_operations = list(self.operations.items())\n", "                recorded_operations = self.operations.items()\n")
+M("c09-failed-item-wrapper-type", "C09", "R1.failed-item-carries-recorded-error", "concurrency/executor.py",
+  "                            if isinstance(branch_error, CallableRuntimeError)\n", "                            if False\n")
+M("c12-power-overflows", "C12", "R4.backoff-power-cannot-overflow", "retries.py",
+  "        except OverflowError:\n            # a float rate overflows long before the cap applies (2.0 ** 1024): that is the cap\n            base_delay = config.max_delay_seconds\n",
+  "        finally:\n            pass\n")
+M("c13-recorded-state-truthiness", "C13", "R1.state-threading", "operation/wait_for_condition.py",
+  "            and checkpointed_result.result is not None\n", "            and checkpointed_result.result\n")
+M("c16-measures-result-text-only", "C16", "R5.size-measures-the-response", "execution.py",
+  "                if serialized_result and response_size > LAMBDA_RESPONSE_SIZE_LIMIT:", "                if serialized_result and len(serialized_result) > LAMBDA_RESPONSE_SIZE_LIMIT:")
+M("c20-float-millis", "C20", "R4.millis-computed-exactly", "lambda_service.py",
+  "        return (dt - _UNIX_EPOCH) // datetime.timedelta(milliseconds=1)", "        return int(dt.timestamp() * 1000)")
+M("c20-zero-millis-undecoded", "C20", "R4.json-reader-tests-presence", "lambda_service.py",
+  '        if (ms := data_copy.get("StartTimestamp")) is not None:', '        if ms := data_copy.get("StartTimestamp"):')
